@@ -760,8 +760,13 @@ class FileReport:  # pylint: disable=too-many-instance-attributes
                         )
                     ) != identifier:
                         identifiers.add(plus_identifier)
-                    # Bad license
-                    if not identifiers.intersection(project.license_map):
+                    # Bad license. A LicenseRef- that LICENSES/ does not
+                    # provide is not bad, but missing.
+                    if not identifiers.intersection(
+                        project.license_map
+                    ) and not any(
+                        _LICENSEREF_PATTERN.match(item) for item in identifiers
+                    ):
                         report.bad_licenses.add(identifier)
                     # Missing license
                     if not identifiers.intersection(project.licenses):
